@@ -262,7 +262,11 @@ def chunks(ctx, prog):
             at = sa[4]
             conds = [table.norm_atom(table.strip_gargs(c)) for c in p.conds]
             if ty == "Chunks":
-                ok = at == ("bin", "Mul", ("bin", "Div", Sub(L, Int(1)), N), N)
+                l1 = Sub(L, Int(1))
+                # three spellings of "start of the last chunk", equal for len >= 1, size >= 1 and free of overflow
+                ok = at in (("bin", "Mul", ("bin", "Div", l1, N), N),
+                            Sub(l1, ("bin", "Rem", l1, N)),
+                            Sub(L, ("bin", "Add", ("bin", "Rem", l1, N), Int(1))))
                 item_i, rest_i = 1, 0
             else:
                 rem = ("bin", "Rem", L, N)
@@ -270,7 +274,7 @@ def chunks(ctx, prog):
                 item_i, rest_i = 0, 1
             if not ok:
                 msg = "splits at %s under %s; accepted idioms: %s" % (show(at), [sym.show_atom(c) for c in conds if "Rem" in repr(c)],
-                                                                       "(len-1)/size*size" if ty == "Chunks" else "if len%size==0 {size} else {len%size}")
+                                                                       "(len-1)/size*size | (len-1)-(len-1)%size | len-((len-1)%size+1)" if ty == "Chunks" else "if len%size==0 {size} else {len%size}")
             it, st = v[2][2], v[2][3]
             if it != ("field", sa, item_i):
                 msg = msg or "yields %s, expected part %d of the split" % (show(it), item_i)
